@@ -124,12 +124,12 @@ def configs(tier, seed):
                     continue
                 for wait in (False, True):
                     for pi, prof in enumerate(tunerx.PROFILES):
-                        if (pi + ci + ki + W + seed) % (8 if tier == "quick" else 2) != 0:
+                        if (pi + ci + ki + W + seed) % (8 if tier == "quick" else 3) != 0:
                             continue
                         mode = "min"
                         cfg = dict(kind=kind, W=W, R=3, mode=mode, seed=seed, profile=prof, stop=stop, wait=wait,
                                    k=1 if tier == "quick" else 2, F=1 if pi % 2 else 0, max_failures=pi % 2 * (ci % 2),
-                                   max_exec=150 if tier == "quick" else 3000)
+                                   max_exec=150 if tier == "quick" else 1200)
                         cfg["mra"] = (pi + ci) % 3 != 0
                         cfg["async"] = not (W == 2 and (pi + ci) % 4 == 1)
                         out.append(cfg)
